@@ -17,22 +17,26 @@ import (
 type c13Kind struct {
 	T    *decl.Type
 	Vals []string
+	// Cli, when set, gives the command-line text equivalent to each INI text (map values may be quoted in INI syntax only)
+	Cli []string
 }
 
 var c13Kinds = []c13Kind{
-	{decl.TString, []string{"v1", `"q z"`, "a=b"}},
-	{decl.TInt, []string{"5", "-7", "12"}},
-	{decl.TBool, []string{"true", "", "true"}},
-	{decl.TBools, []string{"true", "", "true"}},
-	{decl.TStrings, []string{"a", "b=c", `"q z"`}},
-	{decl.TInts, []string{"1", "-2", "3"}},
-	{decl.TMapSS, []string{"k:v", "k:w:z", "j:1"}},
-	{decl.TMapSI, []string{"k:1", "k:2", "j:-3"}},
-	{decl.TFloat64, []string{"2.5", "-1e3", "0"}},
-	{decl.TDuration, []string{"1h2m", "-3s", "5ms"}},
-	{decl.TPInt, []string{"5", "-7", "0"}},
-	{decl.TUpper, []string{"val", "x", "y"}},
-	{decl.TUint8, []string{"200", "7", "0"}},
+	{decl.TString, []string{"v1", `"q z"`, "a=b"}, nil},
+	{decl.TInt, []string{"5", "-7", "12"}, nil},
+	{decl.TBool, []string{"true", "", "true"}, nil},
+	{decl.TBools, []string{"true", "", "true"}, nil},
+	{decl.TStrings, []string{"a", "b=c", `"q z"`}, nil},
+	{decl.TInts, []string{"1", "-2", "3"}, nil},
+	{decl.TMapSS, []string{"k:v", "k:w:z", "j:1"}, nil},
+	{decl.TMapSI, []string{"k:1", "k:2", "j:-3"}, nil},
+	{decl.TMapSS, []string{`k:"v w"`, `k:"http://h:80/x"`, `j:"a:b:c"`}, []string{"k:v w", "k:http://h:80/x", "j:a:b:c"}},
+	{decl.TMapSI, []string{`k:"1"`, "k:2", `j:"-3"`}, []string{"k:1", "k:2", "j:-3"}},
+	{decl.TFloat64, []string{"2.5", "-1e3", "0"}, nil},
+	{decl.TDuration, []string{"1h2m", "-3s", "5ms"}, nil},
+	{decl.TPInt, []string{"5", "-7", "0"}, nil},
+	{decl.TUpper, []string{"val", "x", "y"}, nil},
+	{decl.TUint8, []string{"200", "7", "0"}, nil},
 }
 
 var c13Cache = map[int]*decl.Decl{}
@@ -154,7 +158,10 @@ func init() {
 		for cc := sel.Owner; cc != nil && cc.Parent != nil; cc = cc.Parent {
 			argv = append([]string{cc.Name}, argv...)
 		}
-		for _, v := range vals {
+		for vi, v := range vals {
+			if kind.Cli != nil {
+				v = kind.Cli[vi]
+			}
 			switch {
 			case kind.T.IsFlag() && sel.LongNS != "":
 				argv = append(argv, "--"+sel.LongNS)
@@ -195,10 +202,10 @@ func init() {
 		ShardDepth: 2,
 		Body:       body,
 		Rule: "declaration whose names cross (A's long name = B's field name = C's ini-name up to case; the same field name in the parser, a namespaced group, a command and a sub-subcommand; short-only, long-only and no-ini options; an ini-name inside a command's subgroup) " +
-			"x 13 option types x 13 section spellings (global, group description in three casings, command, command.group in two casings, sub-subcommand path, wrong casings and unknown paths) x 39 entry names (every naming of every option in several casings, namespaced long names, unknown) " +
+			"x 15 option types / value notations (incl. map values written in INI quoting, some containing colons, against their unquoted command-line equivalent) x 13 section spellings (global, group description in three casings, command, command.group in two casings, sub-subcommand path, wrong casings and unknown paths) x 39 entry names (every naming of every option in several casings, namespaced long names, unknown) " +
 			"x 1..3 repeated entries x normal / as-defaults mode; oracle: (a) the documented priority ini-name > field > namespaced long > short selects the option, unknown names/sections are errors, (b) differential: a fresh parser given the equivalent --name=value flags must end in the same option struct; " +
 			"distinct = distinct (type, section, name, repetitions, error class, options touched)",
-		Assumptions:  []string{"values without edge blanks; quoted map values are INI-specific syntax (C12)", "a flag entry 'name = false' has no command-line equivalent and is not used"},
+		Assumptions:  []string{"values without edge blanks", "a flag entry 'name = false' has no command-line equivalent and is not used"},
 		RequiredHits: []string{"selected-by:ini-name", "selected-by:field", "selected-by:long", "selected-by:short", "no-such-option-or-section", "repeated", "as-defaults"},
 		Bound:        [2]string{"complete product", "complete product"},
 		BudgetS:      [2]int{100, 600},
